@@ -28,6 +28,7 @@ type Prog struct {
 	SSA    *ssa.Program
 	Fset   *token.FileSet
 	NFuncs int
+	callers map[*ssa.Function][]ssa.CallInstruction
 }
 
 func RepoDir() string {
